@@ -149,6 +149,23 @@ class Sym:
             raise Untranslatable("unary op")
         if isinstance(node, ast.BinOp):
             a, ta = self.expr(node.left, env)
+            if ta == "int" or (ta == "num" and self.is_int_expr(node.right, env)):
+                b, tb = self.expr(node.right, env)
+                lit_b = isinstance(node.right, ast.Constant) and isinstance(node.right.value, int) and not isinstance(node.right.value, bool)
+                lit_a = isinstance(node.left, ast.Constant) and isinstance(node.left.value, int) and not isinstance(node.left.value, bool)
+                if isinstance(node.op, (ast.Add, ast.Sub, ast.Mult)) and (ta == "int" or lit_a) and (tb == "int" or lit_b):
+                    ia = f"({node.left.value} : Int)" if lit_a else a
+                    ib = f"({node.right.value} : Int)" if lit_b else b
+                    sym = {ast.Add: "+", ast.Sub: "-", ast.Mult: "*"}[type(node.op)]
+                    return f"({ia} {sym} {ib})", "int"
+                # any other mix: integers are converted to floats (true division, comparison with floats, ...)
+                a = f"(ofInt {a} : α)" if ta == "int" else a
+                node_b = (f"(ofInt {b} : α)" if tb == "int" else b)
+                ops = {ast.Add: "+", ast.Sub: "-", ast.Mult: "*", ast.Div: "/"}
+                for k, sy in ops.items():
+                    if isinstance(node.op, k):
+                        return f"({a} {sy} {node_b})", "num"
+                raise Untranslatable("integer operator")
             self.need(ta, "num")
             if isinstance(node.op, ast.Pow):
                 if isinstance(node.right, ast.Constant) and node.right.value == 2 and not isinstance(node.right.value, bool):
@@ -182,17 +199,41 @@ class Sym:
             return "(" + ", ".join(self.expr(e, env)[0] for e in node.elts) + ")", "tuple"
         raise Untranslatable(type(node).__name__)
 
+    def is_int_expr(self, node, env):
+        try:
+            return self.expr(node, env)[1] == "int"
+        except Untranslatable:
+            return False
+
     def need(self, t, want):
         if t != want:
             raise Untranslatable(f"type {t} where {want} expected")
 
     def call(self, node, env):
         fn = dotted(node.func)
-        if node.keywords:
-            raise Untranslatable("keyword arguments")
         if fn is None:
             raise Untranslatable("call target")
         base = fn.split(".")[-1]
+        if fn in ("np.isclose", "numpy.isclose") and len(node.args) == 2 and {k.arg for k in node.keywords} <= {"rtol", "atol"}:
+            a, ta = self.expr(node.args[0], env)
+            b, tb = self.expr(node.args[1], env)
+            self.need(ta, "num"); self.need(tb, "num")
+            kw = {k.arg: self.expr(k.value, env)[0] for k in node.keywords}
+            rtol = kw.get("rtol", "(lit (1, 5))")
+            atol = kw.get("atol", "(lit (1, 8))")
+            return f"((absA ({a} - {b})) ≤ ({atol} + ({rtol} * (absA {b}))))", "prop"
+        if fn in ("np.round", "numpy.round", "np.rint", "numpy.rint", "np.around") and len(node.args) == 1 and not node.keywords:
+            a, ta = self.expr(node.args[0], env)
+            self.need(ta, "num")
+            return f"(ofInt (pyRoundHalfEven {a}) : α)", "num"
+        if fn == "int" and len(node.args) == 1 and not node.keywords:
+            a, ta = self.expr(node.args[0], env)
+            if ta == "int":
+                return a, "int"
+            self.need(ta, "num")
+            return f"(pyTruncInt {a})", "int"
+        if node.keywords:
+            raise Untranslatable("keyword arguments")
         if fn.startswith(("np.", "numpy.", "math.")):
             args = [self.expr(a, env) for a in node.args]
             if base in NP_UNARY and len(args) == 1:
@@ -271,7 +312,14 @@ class Sym:
             for op, l, r in zip(node.ops, items, items[1:]):
                 a, ta = self.expr(l, env)
                 b, tb = self.expr(r, env)
-                if {ta, tb} <= {"num"}:
+                if {ta, tb} == {"int"}:
+                    m = {ast.Lt: f"({a} < {b})", ast.Gt: f"({b} < {a})", ast.LtE: f"({a} ≤ {b})", ast.GtE: f"({b} ≤ {a})",
+                         ast.Eq: f"({a} = {b})", ast.NotEq: f"(¬ ({a} = {b}))"}
+                elif ta == "int" and isinstance(r, ast.Constant) and isinstance(r.value, int) and not isinstance(r.value, bool):
+                    b = f"({r.value} : Int)"
+                    m = {ast.Lt: f"({a} < {b})", ast.Gt: f"({b} < {a})", ast.LtE: f"({a} ≤ {b})", ast.GtE: f"({b} ≤ {a})",
+                         ast.Eq: f"({a} = {b})", ast.NotEq: f"(¬ ({a} = {b}))"}
+                elif {ta, tb} <= {"num"}:
                     m = {ast.Lt: f"({a} < {b})", ast.Gt: f"({b} < {a})", ast.LtE: f"({a} ≤ {b})", ast.GtE: f"({b} ≤ {a})",
                          ast.Eq: f"(eqA {a} {b} = true)", ast.NotEq: f"(¬ (eqA {a} {b} = true))"}
                 elif ta == "ostr" and tb == "str":
@@ -406,9 +454,10 @@ class Sym:
                 pat = merged[0][1] if len(merged) == 1 else "(" + ", ".join(m[1] for m in merged) + ")"
                 ta = merged[0][2][0] if len(merged) == 1 else "(" + ", ".join(m[2][0] for m in merged) + ")"
                 tb = merged[0][3][0] if len(merged) == 1 else "(" + ", ".join(m[3][0] for m in merged) + ")"
+                ty = " × ".join(LEAN_TYPES.get(m[2][1], "_") for m in merged)
                 if len(merged) == 1:
-                    return f"(let {pat} := (if {c} then ({la}{ta}) else ({lb}{tb})); {self.run(rest, env2)})"
-                return f"(match (if {c} then ({la}{ta}) else ({lb}{tb})) with | {pat} => {self.run(rest, env2)})"
+                    return f"(let {pat} : {ty} := (if {c} then ({la}{ta}) else ({lb}{tb})); {self.run(rest, env2)})"
+                return f"(match ((if {c} then ({la}{ta}) else ({lb}{tb})) : {ty}) with | {pat} => {self.run(rest, env2)})"
             a = self.run(list(s.body) + rest, env)
             b = self.run(list(s.orelse) + rest, env)
             return f"(if {c} then {a} else {b})"
@@ -489,7 +538,8 @@ class Sym:
                     pk = f"if_{self.counter}"
                     ta = merged[0][1][0] if len(merged) == 1 else "(" + ", ".join(m[1][0] for m in merged) + ")"
                     tb = merged[0][2][0] if len(merged) == 1 else "(" + ", ".join(m[2][0] for m in merged) + ")"
-                    lets += f"let {pk} := (if {c} then ({la}{ta}) else ({lb}{tb})); "
+                    ty = " × ".join(LEAN_TYPES.get(m[1][1], "_") for m in merged)
+                    lets += f"let {pk} : {ty} := (if {c} then ({la}{ta}) else ({lb}{tb})); "
                     for i, (n, va, vb) in enumerate(merged):
                         self.counter += 1
                         fresh = f"{lean_ident(n)}_{self.counter}"
@@ -591,7 +641,7 @@ def find_lambda(tree, path):
     raise Untranslatable(f"{var} not found")
 
 
-LEAN_TYPES = {"num": "α", "str": "String", "table": "List (String × String)", "bool": "Bool"}
+LEAN_TYPES = {"num": "α", "str": "String", "table": "List (String × String)", "bool": "Bool", "int": "Int"}
 
 
 def translate(repo, spec):
@@ -600,7 +650,7 @@ def translate(repo, spec):
     sym = Sym(spec)
     ret_types = spec.get("out_types", ["num"] * len(spec["out"]))
     ret = LEAN_TYPES[ret_types[0]] if len(ret_types) == 1 else "(" + " × ".join(LEAN_TYPES[t] for t in ret_types) + ")"
-    zero = {"num": "(n# 0)", "str": '""', "bool": "false"}
+    zero = {"num": "(n# 0)", "str": '""', "bool": "false", "int": "(0 : Int)"}
     placeholder = zero[ret_types[0]] if len(ret_types) == 1 else "(" + ", ".join(zero[t] for t in ret_types) + ")"
     if spec.get("option"):
         ret, placeholder = f"Option {ret}", "none"
@@ -748,6 +798,10 @@ TARGETS = [
          start_at_test="distribution_spatial == 'lognormal'",
          params=[("distribution_spatial", "str"), ("fn_mean", "num"), ("fn_stddev", "num"), ("realizations", "num")],
          out=["return"], out_types=["num", "num", "num"]),
+    # TimeSeries.split: samples per window and number of windows from the window length, the time step and the record length
+    dict(group="Split", name="split_counts", file="hvsrpy/timeseries.py", cls="TimeSeries", func="split", check_args=["self", "window_length_in_seconds"],
+         params=[("window_length_in_seconds", "num"), ("self.dt_in_seconds", "num"), ("self.n_samples", "int")],
+         out=["samples_per_window", "n_windows"], out_types=["int", "int"], stop_before="start_idx", option=True),
     # frequency-domain window rejection: the accept decision of the inner loop (None = window skipped, its masks are kept) ...
     dict(group="Fdwra", name="fdwra_keep", file="hvsrpy/window_rejection.py", func="_frequency_domain_window_rejection",
          descend=["c_iteration", "c_peak"], params=[("c_valid", "bool"), ("c_peak", "num"), ("lower_bound", "num"), ("upper_bound", "num")],
@@ -760,7 +814,7 @@ TARGETS = [
 ]
 
 
-GROUPS = ["Combine", "Azimuth", "Orient", "Windows", "Stats", "Sesame", "Fdwra", "Psd", "Nyquist", "Spatial"]
+GROUPS = ["Combine", "Azimuth", "Orient", "Windows", "Stats", "Sesame", "Fdwra", "Psd", "Nyquist", "Spatial", "Split"]
 
 
 def emit(repo):
